@@ -61,4 +61,10 @@ def obligations(prefix):
     obs.append(Obligation(prefix + ".images.every_pushed_shift_is_a_lattice_vector_zero_on_inactive_axes", P,
                           And(*[Implies(pc, And(Or(*[is_shift(sh, t) for t in lat]),
                                                 *[Implies(Not(act[a]), Eq(sh.e[a], R0)) for a in range(3)])) for pc, sh in calls]), lab))
+    def replay_images(ob=None):
+        from .c17 import traversal_probe
+        n, bad = traversal_probe(20260930, 18)
+        return {"reproduced": bad is not None, "searched": n, "mismatch": bad}
+    for o in obs:
+        if not o.expect_sat and o.replay is None: o.replay = replay_images
     return obs, [{"fn": lab, "slice_sha": extract.sha("".join(extract.text_of(u.tree, s_) for s_ in sl))}]
